@@ -13,24 +13,24 @@ props = {
 text = {
  "C01": "Seeded search over API histories (publish/delete/trim/compact/GC/sync/reopen with re-drawn options, index loss, offline tools, clock jumps) on the real code; after every call a full cursor scan must equal the reference model exactly; one run in eight goes through the typed facade (TLog), a fifth of the reopens first look through a read-only handle. Sampling, not proof: the right level for a property quantified over unbounded histories.",
  "C02": "Seeded search biased to tail deletes, emptying, empty batches and reopen chains; every Publish/Sync/NextOffset result and every visible offset is compared with the model's never-decreasing next offset.",
- "C03": "Seeded search over hole patterns; Consume is evaluated for every offset in [-5, next+2] x maxCount set against a predicate derived from the model, plus a full cursor walk.",
- "C04": "Seeded search over hole patterns; Get for every offset in [0, next+2] and both relative offsets is classified against the model and compared with Consume.",
+ "C03": "Seeded search over hole patterns; Consume is evaluated for every offset in [-5, next+2] x maxCount set (plus maxCount MaxInt64 / 2^40 / MaxInt32 and offsets far beyond NextOffset) against a predicate derived from the model, plus a full cursor walk.",
+ "C04": "Seeded search over hole patterns; Get for every offset in [0, next+2], offsets far beyond NextOffset and both relative offsets is classified against the model and compared with Consume.",
  "C05": "Seeded workloads recorded at the file-system seam; every mutation of the recorded trace is a crash point (prefix images), appends are additionally torn, and recovery itself is cut again (depth 2); each image must reopen with Recover to an allowed state with agreeing views. Workloads include process kills without Close followed by a new Open. Enumeration of fault points within sampled workloads.",
  "C06": "Same recorded workloads; at every crash point power-loss images cut each file back to a length between its fsynced and current length; everything below the acknowledged Sync watermark must survive Recover, also when a Sync or Close follows the death (without Close) of an earlier incarnation that left unsynced data. A quarter of the runs are concurrent (publisher and Sync tasks under the serialized scheduler with the FS tap on): the watermark at a file-system step is the largest offset a Sync / AutoSync Publish had returned before the next step.",
- "C07": "Head segments built through the real API are damaged (every truncation length, byte damage at every position, garbage tails, index damage, log and index both torn); Recover/Check results (also Recover combined with an eager migration to the other format version) are compared with the reference codec's longest-valid-prefix.",
+ "C07": "Head segments built through the real API are damaged (every truncation length, byte damage at every position, garbage tails, index damage, log and index both torn); Recover/Check results (also Recover combined with Check, and with an eager migration to the other format version) are compared with the reference codec's longest-valid-prefix.",
  "C08": "Serialized deterministic scheduler over real goroutines (yield at every lock/atomic/channel/FS operation; random, PCT, hold and sequential strategies; goroutines started by the code under test become tasks too); plans include lazily loaded segments with lost index files and unload/reload (GC) stress; race detector under a race-transparent hand-off, porcupine linearizability against the reference model, no spurious failure, no deadlock/livelock.",
  "C09": "Seeded search with nil/empty/real FNV-1a-64 colliding keys; key lookups and key cursors for all keys of the set plus absent keys compared with the model after every call.",
  "C10": "Seeded search over never-decreasing-time histories with equal stamps across rollovers; time lookups at every distinguishing query time compared with the model after every call.",
  "C11": "At every Close each index file is compared with the index derived by the reference codec; observation before Close is compared with observation after reopening copies with index subsets removed, read-write and read-only.",
- "C12": "Every Delete/DeleteMulti call in seeded histories is checked against its contract (subset, content, exact storage size, only those gone, progress, idempotence).",
+ "C12": "Every Delete/DeleteMulti call in seeded histories (index files lost between sessions, multi helpers interrupted by a failing backoff) is checked against its contract (subset, content, exact storage size, only those gone, progress, idempotence).",
  "C13": "Everything the simulated disk holds after each call is strictly re-decoded by an independent reference codec and read back through the real decoders (file reader and mmap reader); foreign segments written by the reference encoder are served by the real code; Size/Stat compared with the directory; times over the whole int64 range (also before 1970), values up to the 64 MiB limit.",
- "C14": "Multi-segment V2 logs are damaged in one log file (bit flips, 1-8 byte overwrites incl. the file header, truncations, zero tails); every read call is classified must-error / must-equal / may-do-either / never-wrong, under recover() and an allocation meter.",
+ "C14": "Multi-segment V2 logs are damaged in one log file (bit flips, 1-8 byte overwrites incl. the file header, boundary values in the length fields of records, truncations, zero tails); every read call is classified must-error / must-equal / may-do-either / never-wrong, under recover() and an allocation meter.",
  "C15": "Find*/Trim* calls in seeded histories on multi-segment logs with holes are checked: prefix-only selection, bound established by the Multi variants, minimality for the size estimate.",
  "C16": "Compaction calls in seeded histories over few keys with tombstones: the key->latest-value map must be unchanged and each removed message must satisfy its removal rule.",
  "C17": "Seeded histories re-drawing version options at every reopen and running offline Migrate (twice): content and observation unchanged, version byte of every segment as requested.",
  "C18": "Serialized deterministic scheduler over waiters, publishers and a controller (cancel with and without a cause, Close at chosen yields or at quiescence, late waits just below NextOffset), yields inside the notifier; no lost or spurious wake-up, result equals Consume at an instant, error cases.",
- "C19": "Seeded sequences of up to three handles on one directory (writer and reader sessions, conflicting Opens, Opens that fail for other reasons with and without Check and through OpenBlocking, index loss, read-only handles on a directory without segments, GC on read-only handles); lock state machine oracle, read-only battery vs model and vs writer, *.log bytes unchanged.",
- "C20": "Seeded histories with Log.Backup / Backup into empty directories and repeated across publish-only gaps; Check(target), file equality and observation equality source vs opened backup.",
+ "C19": "Seeded sequences of up to three handles on one directory (writer and reader sessions, conflicting Opens, Opens that fail for other reasons with and without Check and through OpenBlocking, index loss, one and two read-only handles on a directory without segments with read-write attempts in between, GC on read-only handles, read-only sessions on a damaged newest log and on what a crashed delete leaves behind); lock state machine oracle, read-only battery vs model and vs writer, *.log bytes unchanged.",
+ "C20": "Seeded histories with Log.Backup (through the read-write handle, or through a read-only handle as its first call with index files lost) / package-level Backup into empty directories and repeated across publish-only gaps; Check(target), log files equal, index files equal or implied by their log, observation equality source vs opened backup, source unchanged.",
 }
 tech = {
  "H": "deterministic simulation: seeded history search against an executable reference model",
